@@ -720,6 +720,67 @@ func boundary() []cCase {
 		flt("transmitrep", cItem{0, 10}, cItem{1, 7}), flt("transmitrep", cItem{0, 9}, cItem{1, 6}), flt("acceptrep"), flt("transmitrep"),
 		evs(0, ev(0, 1, 1, 10, 11, 0), ev(1, 2, 2, 7, 8, 0)), sl(1100 * ms), flt("transmitrep", cItem{0, 10}, cItem{1, 7}, cItem{2, 3}), tr(2, 3),
 		flt("acceptrep", cItem{2, 3}, cItem{2, 4}, cItem{2, 4}), flt("transmitrep", cItem{2, 3}, cItem{2, 4}), evs(0), sl(4500 * ms), flt("transmitrep", cItem{2, 4}), flt("acceptrep", cItem{0, 1}, cItem{2, 1})}})
+	// reports in a mixed state: P pending, S superseded (a higher block accepted since), C confirmed,
+	// N never accepted; the still-pending upkeep in every position, every subset
+	five := []cWid{{Type: 0, N: 1}, {Type: 1, N: 2}, {Type: 0, N: 3}, {Type: 1, N: 4}, {Type: 0, N: 5}}
+	P, S, C, P3, N := cItem{0, 10}, cItem{1, 10}, cItem{2, 10}, cItem{3, 10}, cItem{4, 10}
+	setup := []cOp{flt("acceptrep", P, S, C, P3), acc(1, 12), evs(0, ev(2, 1, 1, 10, 11, 0)), sl(1200 * ms), evs(0)}
+	var mixed [][]cItem
+	for _, pair := range [][2]cItem{{P, S}, {P, C}, {P, N}, {P, P3}, {S, C}} {
+		mixed = append(mixed, []cItem{pair[0], pair[1]}, []cItem{pair[1], pair[0]})
+	}
+	for _, tri := range [][3]cItem{{P, S, C}, {P, C, N}, {P, P3, S}, {S, C, N}} {
+		for _, pm := range [][3]int{{0, 1, 2}, {1, 0, 2}, {1, 2, 0}, {2, 1, 0}, {0, 2, 1}, {2, 0, 1}} {
+			mixed = append(mixed, []cItem{tri[pm[0]], tri[pm[1]], tri[pm[2]]})
+		}
+	}
+	quad := []cItem{P, S, C, N}
+	for rot := 0; rot < 4; rot++ {
+		mixed = append(mixed, []cItem{quad[rot%4], quad[(rot+1)%4], quad[(rot+2)%4], quad[(rot+3)%4]})
+	}
+	mixed = append(mixed, []cItem{P, S, C, P3}, []cItem{S, P3, C, P}, []cItem{P3, P, N, S})
+	var trOps []cOp
+	for _, m := range mixed {
+		trOps = append(trOps, flt("transmitrep", m...))
+	}
+	cs = append(cs, cCase{Family: "plugin-transmit-mixed-positions", WindowMs: 20000, MinConf: 0, Plugin: true, Ws: five, Ops: cat(setup, trOps)})
+	// compact versions (small replays)
+	cs = append(cs, cCase{Family: "plugin-transmit-pending-first-superseded-last", WindowMs: 20000, MinConf: 0, Plugin: true, Ws: three, Ops: []cOp{
+		flt("acceptrep", cItem{0, 10}, cItem{1, 10}), acc(1, 12), flt("transmitrep", cItem{0, 10}, cItem{1, 10}), flt("transmitrep", cItem{1, 10}, cItem{0, 10})}})
+	cs = append(cs, cCase{Family: "plugin-transmit-pending-first-confirmed-last", WindowMs: 20000, MinConf: 1, Plugin: true, Ws: three, Ops: []cOp{
+		flt("acceptrep", cItem{0, 10}, cItem{1, 10}), evs(0, ev(1, 1, 1, 10, 11, 1)), sl(1200 * ms), evs(0),
+		flt("transmitrep", cItem{0, 10}, cItem{1, 10}), flt("transmitrep", cItem{1, 10}, cItem{0, 10}), flt("transmitrep", cItem{2, 10}, cItem{0, 10}, cItem{1, 10})}})
+	// acceptance: the acceptable upkeep in every position; every upkeep of the report is recorded, so an
+	// older report for any of them is refused afterwards
+	var accOps []cOp
+	accOps = append(accOps, flt("acceptrep", P, S, C, P3))
+	blk := uint64(20)
+	for size := 2; size <= 4; size++ {
+		for pos := 0; pos < size; pos++ {
+			var rep []cItem
+			for j := 0; j < size; j++ {
+				if j == pos {
+					rep = append(rep, cItem{j, blk}) // higher than awaited: acceptable
+				} else {
+					rep = append(rep, cItem{j, blk - 1}) // the block already awaited (accepted in an earlier round): refused
+				}
+			}
+			accOps = append(accOps, flt("acceptrep", rep...))
+			for j := 0; j < size; j++ {
+				if j != pos {
+					accOps = append(accOps, acc(j, blk)) // bring the others up so the next round's blk-1 is "already awaited"
+				}
+			}
+			accOps = append(accOps, acc(pos, blk-1), tr(pos, blk)) // an older report for the accepted upkeep is refused
+			blk++
+		}
+	}
+	// several acceptable upkeeps: all are recorded, whatever their position
+	accOps = append(accOps, flt("acceptrep", cItem{0, 40}, cItem{1, 5}, cItem{2, 40}, cItem{3, 40}), acc(2, 39), acc(3, 39), acc(0, 39),
+		flt("transmitrep", cItem{3, 40}), flt("transmitrep", cItem{2, 40}, cItem{1, 5}), flt("acceptrep", cItem{4, 1}, cItem{3, 41}), acc(3, 40), acc(4, 1), tr(4, 1))
+	cs = append(cs, cCase{Family: "plugin-accept-every-position-all-recorded", WindowMs: 20000, MinConf: 0, Plugin: true, Ws: five, Ops: accOps})
+	cs = append(cs, cCase{Family: "plugin-accept-last-upkeep-recorded", WindowMs: 20000, MinConf: 0, Plugin: true, Ws: three, Ops: []cOp{
+		flt("acceptrep", cItem{0, 10}, cItem{1, 10}, cItem{2, 10}), acc(2, 9), acc(1, 9), tr(2, 10), flt("acceptrep", cItem{0, 10}, cItem{2, 11}), acc(2, 10), tr(2, 11)}})
 	cs = append(cs, cCase{Family: "plugin-restart", WindowMs: 3000, MinConf: 1, Plugin: true, Ws: three, Ops: []cOp{
 		flt("acceptrep", cItem{0, 5}, cItem{1, 5}), tr(0, 5), {Kind: "restart"}, flt("transmitrep", cItem{0, 5}, cItem{1, 5}), flt("acceptrep", cItem{1, 5}), flt("transmitrep", cItem{0, 5}, cItem{1, 5})}})
 	return cs
@@ -739,8 +800,12 @@ func randomCase(r *Rng, emphasizeFilters bool) cCase {
 		}
 		c.Ws = append(c.Ws, cWid{Type: ty, N: i + 1})
 	}
-	if r.Chance(1, 6) && c.WindowMs > 0 && c.WindowMs <= 20000 {
+	if r.Chance(1, 5) && c.WindowMs > 0 && c.WindowMs <= 20000 {
 		c.Plugin = true
+		for nw < 3 {
+			c.Ws = append(c.Ws, cWid{Type: uint8(r.Intn(2)), N: nw + 1})
+			nw++
+		}
 	}
 	cur := make([]uint64, nw)  // generator's idea of the awaited block
 	lastTB := make([]uint64, nw)
@@ -811,15 +876,30 @@ func randomCase(r *Rng, emphasizeFilters bool) cCase {
 			c.Ops = append(c.Ops, acc(w, b))
 		case k < 34:
 			c.Ops = append(c.Ops, tr(w, uint64(int64(cur[w])+int64([]int{0, 0, 0, 0, -1, 1}[r.Intn(6)]))))
-		case k < 40 && c.Plugin || k < 36:
-			var its []cItem
-			for i := 0; i < r.Intn(4); i++ {
-				x := r.Intn(nw)
-				its = append(its, cItem{W: x, Blk: uint64(int64(cur[x]) + int64(r.Intn(4)) - 1)})
+		case k < 48 && c.Plugin || k < 36:
+			// a report over 2-4 distinct work ids (sometimes 0-1), in random order, blocks around the awaited one
+			size := 2 + r.Intn(3)
+			if r.Chance(1, 6) {
+				size = r.Intn(2)
+			}
+			if size > nw {
+				size = nw
 			}
 			kind := "acceptrep"
-			if r.Bool() {
+			if r.Chance(3, 5) {
 				kind = "transmitrep"
+			}
+			var its []cItem
+			for _, x := range r.Perm(nw)[:size] {
+				d := []int{0, 0, 0, -1, 1, 2}[r.Intn(6)]
+				if kind == "acceptrep" {
+					d = []int{0, 0, 1, 1, 2, -1}[r.Intn(6)]
+				}
+				b := uint64(int64(cur[x]) + int64(d))
+				its = append(its, cItem{W: x, Blk: b})
+				if kind == "acceptrep" && b > cur[x] {
+					cur[x] = b
+				}
 			}
 			c.Ops = append(c.Ops, flt(kind, its...))
 		case k < 56:
